@@ -60,8 +60,9 @@ def confirm(d):
         res["demo_patched"] = r.returncode
         res["demo_patched_tail"] = (r.stdout + r.stderr)[-600:]
         time.sleep(1.1)
-        sh("git -C %s diff --name-only > /tmp/.seed_touch_%s; git -C %s checkout -- . && xargs -r touch < /tmp/.seed_touch_%s; rm -f /tmp/.seed_touch_%s; cargo build --offline"
-           % (wt, tag, wt, tag, tag), cwd=wt)
+        # back to the clean tree: tracked files restored, files the patch created removed (the build cache stays)
+        sh("git -C %s diff --name-only > /tmp/.seed_touch_%s; git -C %s checkout -- . && git -C %s clean -fdq -e target && xargs -r touch < /tmp/.seed_touch_%s; rm -f /tmp/.seed_touch_%s; cargo build --offline"
+           % (wt, tag, wt, wt, tag, tag), cwd=wt)
         r = sh("bash %s %s" % (os.path.join(d, "demo.sh"), wt), timeout=600)
         res["demo_clean"] = r.returncode
     finally:
